@@ -17,39 +17,46 @@ MANIFEST = {
                  "replace_and_simplify / DeMorganSimplifier / PostfixLogicBuilder / LogicStack / "
                  "InternalSurfaceFlagger; differential correspondence model vs real classes on "
                  "structured op scripts; exhaustive truth-table oracle on the real code",
-    "text": "Theorems over the model (Props/C10.lean, 26 obligations) for all trees, nodes and "
+    "text": "Theorems over the model (Props/C10.lean, 37 obligations) for all trees, nodes and "
             "sense assignments, no size bound: (a) the 32-bit LogicStack evaluator refines the "
             "list-stack reference for every well-formed logic with calc_max_depth <= 32 (bound "
             "shown sharp at 33), calc_max_depth bounds the stack at every point; (b) the logic "
             "emitted by PostfixLogicBuilder (with or without the sorted surface mapping, incl. face "
-            "remapping) evaluates to the node's value; (c) insert keeps the full tree invariant "
-            "and every denotation; exchange / simplify(node) / simplify_up / simplify(tree) keep "
-            "every node's value under every sense assignment and the soundness of the dedup map "
-            "(order-free `Models` form, all branches incl. swap-with-higher-duplicate); the "
-            "children<id ordering is kept when the swap branch is ordered (SwapSafe) - shown "
-            "necessary by kernel-checked witnesses replayed on the real code; (d) "
-            "replace_and_simplify raises no contradiction and keeps every value on every "
-            "assignment with key = value; (f) a node flagged `simple` is a constant times a "
-            "conjunction of surface literals when no negation points at an alias (hypothesis "
-            "shown necessary); (e) transform_negated_joins (De Morgan): whenever it returns, the new "
-            "tree satisfies the invariant, volume k denotes what volume k of the original denotes "
-            "under every assignment and no negation of a join remains (induction over node ids "
-            "with an explicit old->new id-map invariant; per-node lemma deMorgan_step_sound). NOT "
-            "proved: that De Morgan's compiled-out assertions never fail under the documented "
-            "precondition (model answers `error assert`, treated as broken correspondence; never "
-            "observed); order preservation and termination of whole-tree sweeps (the `denote` "
-            "forms of (c4)/(d) keep `Sorted t'` as a hypothesis, ..._partial; sweep budget "
-            "4*size+16 never exhausted in the runs). "
-            "Logic token values, stack width, NodeRepl lattice order, special node ids and the text "
-            "of calc_max_depth / LogicStack operations are regenerated or pattern-checked from the "
-            "source each run. The hand-written model is tied to the real code by an exact diff of "
-            "the full node array, volumes and every builder/evaluator output after every op of "
-            "generated scripts (n-ary joins with duplicate and complementary operands, shared "
-            "sub-expressions, aliases, constants, nesting, re-insertion, exchange, replace, De "
-            "Morgan, arbitrary token lists for the LogicStack incl. underflow and depth > 32). "
-            "Impl-side oracle: truth tables (all 2^k assignments, k <= 12) of every node of the "
-            "real tree before/after every rewriting op, real LogicEvaluator vs real SenseEvaluator, "
-            "printed postfix/infix re-evaluated independently, sub-cube test of `simple` flags.",
+            "remapping) evaluates to the node's value; InfixEvaluator as written is correct on "
+            "every expression of the explicit infix grammar and on the infix encoding of every "
+            "node (infixOf; the code base has no C++ infix builder, the harness encoder mirrors "
+            "it); (c) insert keeps the full tree invariant and every denotation; exchange / "
+            "simplify(node) / simplify_up / simplify(tree) keep every node's value under every "
+            "sense assignment and the soundness of the dedup map (order-free `Models` form, all "
+            "branches); (d) replace_and_simplify raises no contradiction and keeps every value on "
+            "every assignment with key = value; (e) transform_negated_joins under its documented "
+            "precondition always returns (none of the compiled-out assertions can fire), the new "
+            "tree satisfies the invariant, every volume keeps its denotation and no negated join "
+            "remains; (f) a node flagged `simple` is a constant times a conjunction of surface "
+            "literals when no negation points through aliases at a join (hypothesis shown "
+            "necessary); END-TO-END (reachable_preserves / reachable_postfix_correct / "
+            "reachable_infix_correct): for every tree in the closure of the empty tree under "
+            "insert, insert_volume, replace_and_simplify, simplify(tree,start) and "
+            "transform_negated_joins, every volume keeps the value it was declared with and its "
+            "postfix/infix encodings evaluate to it, for every assignment consistent with the "
+            "replaced constants - with no ordering hypothesis. NOT proved: the documented "
+            "topological order (children < id) is NOT an invariant of reachable trees "
+            "(kernel-checked witness replace_twice_breaks_order: 14 inserts + 2 "
+            "replace_and_simplify, replayed on the real code), so the `denote` forms of (c4)/(d) "
+            "keep `Sorted t'` as a hypothesis (..._partial); termination of the sweeps (budget "
+            "4*size+16 never exhausted in the runs); absence of negated aliases after whole-tree "
+            "simplify (never observed). Logic token values, stack width, NodeRepl lattice order, "
+            "special node ids and the text of calc_max_depth / LogicStack operations are "
+            "regenerated or pattern-checked from the source each run. The hand-written model is "
+            "tied to the real code by an exact diff of the full node array, volumes and every "
+            "builder/evaluator output after every op of generated scripts (n-ary joins with "
+            "duplicate and complementary operands, shared sub-expressions, aliases, constants, "
+            "nesting, re-insertion, exchange, replace, De Morgan, arbitrary token lists for the "
+            "LogicStack incl. underflow and depth > 32, random explicit-infix expressions for the "
+            "real InfixEvaluator). Impl-side oracle: truth tables (all 2^k assignments, k <= 12) "
+            "of every node of the real tree before/after every rewriting op, real LogicEvaluator "
+            "and real InfixEvaluator vs real SenseEvaluator, printed postfix/infix re-evaluated "
+            "independently, sub-cube test of `simple` flags.",
     "design_ref": "DESIGN.md §6 C10",
     "note": "Hypotheses: release build (CELER_EXPECT preconditions explicit), node count < 2^32-1, "
             "surface ids < lbegin, De Morgan only under its documented precondition (no alias, no "
@@ -1181,10 +1188,22 @@ def run_batch(cmd, scripts, timeout, stats):
     def go(lo, hi):
         flat = [l for s in scripts[lo:hi] for l in s]
         out = None
-        try:
-            _, out = vlib.run_lines(cmd, flat, timeout=timeout if hi - lo > 1 else 30)
-        except subprocess.TimeoutExpired:
-            stats["timeouts"] = stats.get("timeouts", 0) + 1
+        for attempt in range(12):
+            try:
+                _, out = vlib.run_lines(cmd, flat, timeout=timeout if hi - lo > 1 else 30)
+            except subprocess.TimeoutExpired:
+                stats["timeouts"] = stats.get("timeouts", 0) + 1
+                break
+            if out and any("error while loading shared libraries" in l for l in out[:2]):
+                # another check is relinking /repo's libraries in the shared build tree: wait
+                # for its build lock, then run again (not a property of the code under test)
+                stats["loader_retries"] = stats.get("loader_retries", 0) + 1
+                out = None
+                with vlib.Lock("celer"):
+                    pass
+                time.sleep(3)
+                continue
+            break
         if out is not None and len(out) == len(flat):
             k = 0
             for i in range(lo, hi):
